@@ -294,15 +294,10 @@ fn miri_layer(seed: u64, tier: &str) -> (Value, Vec<String>) {
         let msg = build.map(|o| String::from_utf8_lossy(&o.stderr).chars().rev().take(1500).collect::<String>().chars().rev().collect::<String>()).unwrap_or_else(|e| e.to_string());
         harness_error(&format!("miri layer does not build/run: {}", msg));
     }
-    let procs = workers_default().min(nseeds as usize).max(1) as u64;
-    let per = (nseeds + procs - 1) / procs;
+    // one process: -Zmiri-many-seeds already spreads the seeds over all cores
     let mut children = Vec::new();
-    for p in 0..procs {
-        let lo = base + p * per;
-        let hi = (base + (p + 1) * per).min(base + nseeds);
-        if lo >= hi {
-            break;
-        }
+    {
+        let (lo, hi) = (base, base + nseeds);
         let ch = Command::new("cargo")
             .args(["+nightly", "miri", "run", "--offline", "-q", "--", "run"])
             .current_dir(&dir)
@@ -497,6 +492,39 @@ fn assumptions(engine: &str) -> Vec<String> {
 fn replay_file(p: &Path, verbose: bool) -> i32 {
     let v: Value = serde_json::from_slice(&std::fs::read(p).unwrap_or_else(|e| harness_error(&format!("read {}: {}", p.display(), e)))).unwrap_or_else(|e| harness_error(&format!("parse replay: {}", e)));
     let engine = v["engine"].as_str().unwrap_or("");
+    if engine == "miri" {
+        // replay = the failing Miri seed (Miri's scheduler is a deterministic function of it)
+        let mut seeds: Vec<u64> = Vec::new();
+        for f in v["failures"].as_array().cloned().unwrap_or_default() {
+            for l in f["failing"].as_array().cloned().unwrap_or_default() {
+                if let Some(n) = l.as_str().and_then(|s| s.rsplit(' ').next()).and_then(|s| s.trim().parse::<u64>().ok()) {
+                    seeds.push(n);
+                }
+            }
+        }
+        seeds.sort();
+        let Some(seed) = seeds.first().copied() else { harness_error("miri replay: no failing seed recorded") };
+        let dir = std::env::var("VERIF_MIRI_DIR").unwrap_or_else(|_| "/verif/miri".into());
+        let out = Command::new("cargo")
+            .args(["+nightly", "miri", "run", "--offline", "-q", "--", "run"])
+            .current_dir(&dir)
+            .env("MIRIFLAGS", format!("-Zmiri-seed={} -Zmiri-preemption-rate=0.1 -Zmiri-disable-isolation", seed))
+            .stdin(Stdio::null())
+            .output()
+            .unwrap_or_else(|e| harness_error(&format!("spawn miri: {}", e)));
+        if out.status.success() {
+            if verbose {
+                println!("not reproduced (miri seed {})", seed);
+            }
+            return 0;
+        }
+        if verbose {
+            let se = String::from_utf8_lossy(&out.stderr);
+            let first = se.lines().find(|l| l.starts_with("error")).unwrap_or("");
+            println!("reproduced property=C13 engine=miri seed={}\n {}", seed, first);
+        }
+        return 1;
+    }
     if v["regenerate"].as_bool() == Some(true) {
         // crash / hang cases: regenerate from (seed, case) — the run itself is the reproduction
         let e = engine_by_name(engine);
